@@ -323,6 +323,13 @@ class Engine:
         r = self.solver.check()
         self.solver_s += _perf() - t0
         self.queries += 1
+        if AUDIT["on"]:
+            AUDIT["n"] += 1
+            if AUDIT["n"] % AUDIT["every"] == 0 and len(AUDIT["items"]) < AUDIT["max"] and r != z3.unknown:
+                try:
+                    AUDIT["items"].append((self.solver.to_smt2(), "sat" if r == z3.sat else "unsat"))
+                except Exception:       # noqa
+                    pass
         if r == z3.unknown:
             raise PathAbort("unknown", "z3 answered unknown: %s" % self.solver.reason_unknown())
         return r == z3.sat
@@ -685,12 +692,14 @@ class ExploreStats:
         self.max_depth = 0
         self.wall_s = 0.0
         self.handed_back = 0
+        self.audit = []
         self.known = {}             # finding id -> representative values
 
     def as_dict(self):
         return dict(self.__dict__)
 
 
+AUDIT = {"on": bool(os.environ.get("VERIF_AUDIT")), "n": 0, "every": 97, "max": 6, "items": []}
 _frozen = [False]
 _fresh = [0]
 
@@ -774,6 +783,8 @@ def explore(harness, fixed_prefix=(), cut_depth=None, budget_s=None, seed=0,
             st.inconclusive["budget"] = st.inconclusive.get("budget", 0) + 1
             break
     st.wall_s = _perf() - t0
+    if AUDIT["items"]:
+        st.audit, AUDIT["items"] = list(AUDIT["items"]), []
     return st
 
 
